@@ -11,9 +11,11 @@ in-process server, runs the real ctl.ExportCommand and ctl.ImportCommand, and co
 CSV (strict RFC 4180 reader), the target's bits and keys, and the re-export of the target
 with the specification."""
 
+import os
+
 LEVEL = "model_checking"
 
-NEED = ["mode:unkeyed", "mode:rowkeys", "mode:colkeys", "mode:both", "target:same",
+NEED = ["nodes:1", "nodes:3", "mode:unkeyed", "mode:rowkeys", "mode:colkeys", "mode:both", "target:same",
         "shape:shard-without-fragment", "shape:emptied-fragment", "shape:partial-last-batch",
         "shape:full-last-batch", "shape:empty-field", "rowkey:comma", "rowkey:quote", "rowkey:newline",
         "rowkey:unicode", "rowkey:space", "colkey:comma", "colkey:quote", "colkey:unicode"]
@@ -26,8 +28,17 @@ def run(ctx):
     r = ctx.generate("Cli", bfs_cfg, mode="bfs", timeout=600)
     ctx.drive("bind/clib", "TestC30", beh=r.behaviours, env={"VERIF_SLOTS": 1}, label="C30/" + bfs_cfg, timeout=2400)
     # seeded sample of the large family: 3 rows x 2 columns per shard, clears, all buffers
-    s = ctx.generate("Cli", "C30_sim", mode="simulate", num=2500 if thorough else 220, depth=6, timeout=600)
-    ctx.drive("bind/clib", "TestC30", beh=s.behaviours, env={"VERIF_SLOTS": 2}, label="C30/C30_sim", timeout=2400)
+    s = ctx.generate("Cli", "C30_sim", mode="simulate", num=4000 if thorough else 220, depth=6, timeout=600)
+    # the sample is split: most of it on one node, the rest on a 3-node cluster (the export has to
+    # fetch every shard from its owner, the import to route every shard to its owner, keyed
+    # imports go through the coordinator)
+    lines = open(s.behaviours).read().splitlines(True)
+    cut = max(1, len(lines) - (800 if thorough else 50))
+    one, three = os.path.join(ctx.scratch, "C30_sim_1.ndjson"), os.path.join(ctx.scratch, "C30_sim_3.ndjson")
+    open(one, "w").writelines(lines[:cut])
+    open(three, "w").writelines(lines[cut:])
+    ctx.drive("bind/clib", "TestC30", beh=one, env={"VERIF_SLOTS": 2}, label="C30/C30_sim", timeout=2400)
+    ctx.drive("bind/clib", "TestC30", beh=three, env={"VERIF_SLOTS": 2, "VERIF_NODES": 3}, label="C30/C30_sim/3nodes", timeout=2400)
     missing = [k for k in NEED if not ctx.extra_cov.get(k)]
     if missing:
         ctx.inconclusive.append("vacuous run: shapes never reached: %s" % ", ".join(missing))
@@ -42,5 +53,5 @@ def run(ctx):
                     "github.com/pilosa/pilosa/test in-process server"]
     ctx.assumptions += ["the empty string is not a key (PQL and the wire format treat it as 'no key')",
                         "column-keyed sources use one shared index whose keys were placed in three shards by a pre-written translate log (a fresh index keeps all keyed columns in shard 0)",
-                        "single node; set fields (the property's scope)"]
+                        "set fields (the property's scope); one node, and a 3-node cluster without replication for part of the sample"]
     ctx.exhaustive = False
